@@ -291,7 +291,8 @@ def _bind(helper, call, is_method, keep=()):
         if isinstance(n, ast.Name) and isinstance(n.ctx, ast.Load):
             loads[n.id] = loads.get(n.id, 0) + 1
     prefix, mapping = [], {}
-    suffix = "__" + helper.name.lstrip("_")
+    _bind.counter[helper.name] = _bind.counter.get(helper.name, 0) + 1
+    suffix = "__" + helper.name.lstrip("_") + ("" if _bind.counter[helper.name] == 1 else str(_bind.counter[helper.name]))
     if a.vararg:
         mapping[a.vararg.arg] = ast.Tuple(elts=[copy.deepcopy(x) for x in (extra or [])], ctx=ast.Load())
     for p in params:
@@ -306,6 +307,9 @@ def _bind(helper, call, is_method, keep=()):
         if loc not in keep:
             mapping[loc] = loc + suffix
     return prefix, mapping
+
+
+_bind.counter = {}
 
 
 def _helper_body(helper):
@@ -395,6 +399,7 @@ class _Inliner:
         return None
 
     def run(self):
+        _bind.counter = {}
         helpers = self.new_helpers()
         if not helpers:
             return 0
